@@ -8,6 +8,10 @@ parameters so that WHERE each one is used is recorded).  A call that no longer m
 change of an operator, an axis, the factor, the window argument, the convolution mode or the clipping breaks the tie theorem
 (never an alarm by itself: the correspondence is escalated and decides).
 
+`decompress_destripe_cbin.my_function` is read as the sequence of `saturation(data=chunk, max_voltage=_sr.range_volts[:ncv],
+fs=_sr.fs)` calls with the batch bounds `[first_s, last_s)` at each call: the batches that `batched_eq_whole` /
+`destripe_batched_eq_whole` (Properties/C16.lean) are about.
+
 `Reader.range_volts` (full-scale voltage = sample2volts * maxint; `maxint` declared free: it is the value of
 `_get_max_int_from_meta`) and the NP2 branch of `_get_max_int_from_meta` (assumptions fix the two string tests) are
 translated as values.  The other two branches, `int(md.get("imMaxInt", <default>))`, are outside the translator's subset
@@ -24,6 +28,14 @@ SPEC = {
              [r'^scipy\.signal\.windows\.cosine\((\w+)\)$', 'cosine', [r'\1']],
              [r"^np\.maximum\((\d+), (\d+) - scipy\.signal\.convolve\(\w+, \w+, mode='same'\)\)$", 'mute', [r'\1', r'\2']],
          ]},
+        {'name': 'saturation_calls', 'module': 'ibldsp/voltage.py', 'function': 'decompress_destripe_cbin.my_function', 'kind': 'events',
+         'assume': {'compute_rms': True},
+         'params': ['i_chunk', 'n_chunk', 'CHUNK_SIZE', 'NBATCH', 'SAMPLES_TAPER', '_sr_ns'],
+         'events': [
+             [r'^saturation\(data=chunk, max_voltage=_sr\.range_volts\[:ncv\], fs=_sr\.fs\)$', 'sat', ['first_s', 'last_s']],
+         ]},
+        {'name': 'destripe_chunk_size', 'module': 'ibldsp/voltage.py', 'function': 'decompress_destripe_cbin', 'kind': 'expr',
+         'target': 'CHUNK_SIZE', 'params': ['sr_ns', 'nprocesses']},
         {'name': 'range_volts', 'module': 'spikeglx.py', 'function': 'Reader.range_volts', 'kind': 'fn', 'free': ['maxint'],
          'assume': {r'not self\.meta': False}, 'params': ['self_sample2volts', 'maxint']},
         {'name': 'max_int_np2', 'module': 'spikeglx.py', 'function': '_get_max_int_from_meta', 'kind': 'fn',
@@ -31,9 +43,12 @@ SPEC = {
          'params': ['md_imMaxInt']},
     ],
     'theorems': ['IblVerif.Tie.C16.saturation_steps_eq', 'IblVerif.Tie.C16.factor_eq_generated',
+                 'IblVerif.Tie.C16.saturation_calls_eq', 'IblVerif.Tie.C16.single_worker_calls_eq', 'IblVerif.Tie.C16.chunk_size_eq',
                  'IblVerif.Tie.C16.range_volts_eq', 'IblVerif.Tie.C16.max_int_np2_eq'],
     'covers': 'voltage.saturation as the sequence of its array-level calls (strict > against 0.98 x range averaged over the channel '
               'axis; >= on |diff along the sample axis| / fs against v_per_sec; OR of two strict comparisons with the same proportion; '
-              'cosine(mute_window_samples); max(0, 1 - convolve(mode=same))); Reader.range_volts = sample2volts * maxint; the NP2 '
+              'cosine(mute_window_samples); max(0, 1 - convolve(mode=same))); the batches [first_s, last_s) on which '
+              'decompress_destripe_cbin.my_function calls saturation with max_voltage=range_volts (start batch, stride NBATCH - 2 TAPER, '
+              'clipping at ns, stop rule; every worker); Reader.range_volts = sample2volts * maxint; the NP2 '
               'branch of _get_max_int_from_meta',
 }
